@@ -23,6 +23,18 @@ struct ICache
 
 ICache* make_cache(const Cfg& cfg);
 
+// Progress markers for the hang watchdog of the sequential driver: a wall-clock alarm may only conclude
+// "a library call did not return" if it finds the *same* call still in flight at two consecutive ticks.
+extern volatile int           g_in_library_call;
+extern volatile unsigned long g_library_call_seq;
+inline void                   guarded_apply(ICache* c, const Op& op, Res& res)
+{
+    ++g_library_call_seq;
+    g_in_library_call = 1;
+    c->apply(op, res);
+    g_in_library_call = 0;
+}
+
 // one factory per container kind, each defined in its own translation unit
 ICache* make_cache_fifo(const Cfg&);
 ICache* make_cache_lfu(const Cfg&);
